@@ -469,7 +469,52 @@ def mk_solved_P(nparams, _replay=None):
     return {"status": "holds", "queries": len(obligations), "paths": 1, "detail": str(results), "solver_s": round(time.time() - t0, 2)}
 
 
+# ------------------------------------------------------------------ which exponentiator computes P = exp(Qt)
+def mk_exp_dispatch():
+    """ExpDefn.calc picks the matrix-exponential back end from the `expm` setting. The back ends are LAPACK / Pade code (outside);
+    what is decided here (CrossHair) is the choice: with the default 'either' the CHECKED eigen route is used and a failed precision
+    check falls back to Pade - an unchecked eigen result is never returned; 'checked' lets the failure propagate; 'eigen' is
+    unchecked; 'pade' is Pade. Back ends are stubs; whether the precision check fails is a symbolic boolean."""
+
+    def check(which: int, eig_fails: bool) -> bool:
+        """
+        pre: 0 <= which <= 3
+        post: _
+        """
+        import warnings
+
+        from cogent3.evolve import substitution_calculation as SC
+
+        expm = ("either", "eigen", "checked", "pade")[which]
+
+        def checked(Q):
+            if eig_fails:
+                raise ArithmeticError("eigen failed precision test")
+            return "checked-eigen"
+
+        saved = (SC.FastExponentiator, SC.CheckedExponentiator, SC.PadeExponentiator)
+        SC.FastExponentiator, SC.CheckedExponentiator, SC.PadeExponentiator = (lambda Q: "unchecked-eigen"), checked, (lambda Q: "pade")
+        try:
+            with warnings.catch_warnings():
+                warnings.simplefilter("ignore")
+                try:
+                    got = SC.ExpDefn.calc(None, expm)("Q")
+                except ArithmeticError:
+                    got = "raised"
+        finally:
+            SC.FastExponentiator, SC.CheckedExponentiator, SC.PadeExponentiator = saved
+        if not W.reach("end"):
+            return False
+        if eig_fails and not W.reach("fails"):
+            return False
+        want = {"either": "pade" if eig_fails else "checked-eigen", "eigen": "unchecked-eigen", "checked": "raised" if eig_fails else "checked-eigen", "pade": "pade"}[expm]
+        return got == want
+
+    return check
+
+
 ENCODED = [
+    ("src/cogent3/evolve/substitution_calculation.py", ["ExpDefn.calc", "_EigenPade.__call__"]),
     ("src/cogent3/evolve/substitution_model.py", ["_ContinuousSubstitutionModel.calcQ", "StationaryQ.calcQ", "Parametric.calc_exchangeability_matrix", "Parametric.__init__ (predicate masks, concrete)"]),
     ("src/cogent3/evolve/ns_substitution_model.py", ["NonReversibleNucleotide / StrandSymmetric (calcQ inherited)"]),
     ("src/cogent3/evolve/motif_prob_model.py", ["SimpleMotifProbModel.calc_word_probs/calc_word_weight_matrix", "MonomerProbModel.*", "PosnSpecificMonomerProbModel.*", "ConditionalMotifProbModel.calc_word_weight_matrix"]),
@@ -515,6 +560,7 @@ def obligations(tier):
             obs.append(Ob(f"rate_classes/{kind}/n{n}", __name__, "mk_rate_classes", {"kind": kind, "nbins": n}, kind="direct", timeout=300, group="bins"))
     for n in (0, 1, 2):
         obs.append(Ob(f"solved_P/{['F81','HKY85','TN93'][n]}", __name__, "mk_solved_P", {"nparams": n}, kind="direct", timeout=900, group="P"))
+    obs.append(Ob("exp_dispatch", __name__, "mk_exp_dispatch", {}, timeout=300, twins=("end", "fails"), group="expm"))
     return obs
 
 
